@@ -72,6 +72,14 @@ NewEmpty(h) == /\ Step /\ hold[h] = 0
                /\ bret' = [op |-> "new_empty", h |-> h, len |-> 64]
                /\ UNCHANGED <<cells, out>>
 
+(* msg.set_content(v) / with_content(v) on a message that may already carry a body: the old body is dropped, the *)
+(* header stays                                                                                                 *)
+Replace(h, k) == /\ Step /\ hold[h] # 0 /\ Len(cells) < MaxCells
+                 /\ cells' = Append(IF hold[h] > 0 THEN [cells EXCEPT ![hold[h]].drops = @ + 1] ELSE cells, [kind |-> k, drops |-> 0, moved |-> FALSE])
+                 /\ hold' = [hold EXCEPT ![h] = Len(cells) + 1]
+                 /\ bret' = [op |-> "replace", h |-> h, kind |-> k, len |-> 64 + ByteLen(Table[k].tree), old |-> IF hold[h] > 0 THEN hold[h] ELSE 0]
+                 /\ UNCHANGED out
+
 (* msg.try_clone() into an empty handle *)
 TryClone(h, g) ==
   /\ Step /\ hold[h] # 0 /\ hold[g] = 0 /\ h # g
@@ -121,7 +129,7 @@ DropOut(c) ==
   /\ bret' = [op |-> "drop_out", cell |-> c]
   /\ UNCHANGED hold
 
-Next == \/ \E h \in Handles : (\E k \in Kinds : New(h, k)) \/ NewEmpty(h) \/ DropMsg(h)
+Next == \/ \E h \in Handles : (\E k \in Kinds : New(h, k) \/ Replace(h, k)) \/ NewEmpty(h) \/ DropMsg(h)
         \/ \E h, g \in Handles : TryClone(h, g)
         \/ \E h \in Handles, T \in {Table[k].ty : k \in Kinds} \cup {"u64"} : TryCast(h, T) \/ Peek(h, T)
         \/ \E c \in out : DropOut(c)
